@@ -135,7 +135,8 @@ namespace igris
 
         void load_history_line()
         {
-            _lastsize = _line.current_size();
+            // columns between the start of the line and the cursor on screen
+            _lastsize = _line.current_size() - _line.rightsize();
 
             if (_curhist == 0)
             {
